@@ -17,9 +17,9 @@ CHECKS = {
         technique="table regeneration from live parsers + Lean 4 proof (locality of option blocks, induction over blocks) + differential execution of process_args",
         ref="§4 C17"),
     "C16": dict(
-        text="Theorems on the Lean models of TestcaseJsStr / TestcaseAttrs.split_parts: C16_js_partition (header ++ parts ++ footer = data, one flag per part), C16_js_token_progress, C16_js_tokens (EVERY reducible JS atom is one token of the escape grammar: a character, \\uHHHH, \\xHH, \\u{H+} or a backslash pair — never a fragment of an escape; the tokenizer's index list points at such tokens through the back-tracking, the header/footer cut and the gap merge), C16_attrs_partition (parts partition the data, are non-empty, one flag each; never raises), C16_attrs_shape (EVERY reducible attribute atom is one complete attribute: leading whitespace, name, then nothing / '=' quoted value through its first closing quote / '=' unquoted value without whitespace or '>'). Not proved: that the reducible JS tokens are exactly those inside properly TERMINATED strings and that attribute atoms lie inside a tag — decided by the monitor against an independent hand-written reference tokenizer / structural specification on every string up to length 5/6 over adversarial alphabets (incl. a backslash alphabet for attributes) plus grammar-directed and marker-bearing streams; the models are tied to the code field by field on the same inputs.",
-        note=NOTE + "Partial: 'inside a terminated string' / 'inside a tag' are monitor + correspondence, not theorems.",
-        technique="Lean 4 proof (partition and index-list invariants of the splitter state machines; shape of every reducible atom) + exhaustive short-string correspondence + reference tokenizer",
+        text="Theorems on the Lean models of TestcaseJsStr / TestcaseAttrs.split_parts: C16_js_exact (the reducible JS atoms WITH THEIR BYTE OFFSETS in the file are EXACTLY the string characters of the reference segmentation Js.specJs — find the next quote; if the body behind it has a closing quote its tokens are string characters, the quotes and the text outside are not; if the data ends first the quote is ordinary text and the search resumes right behind it — proved through the scanner's back-tracking on an unterminated quote (rewind to the last opening quote), the header/footer cut and the gap merge: LithiumProofs/SplitJsSpec.lean, outer_spec + mergeLoop_sp + splitJs_spans), C16_js_partition, C16_js_token_progress, C16_js_tokens (every reducible JS atom is one token of the escape grammar, never a fragment of an escape), C16_attrs_partition (parts partition the data, are non-empty, one flag each; never raises), C16_attrs_shape (every reducible attribute atom is one complete attribute: leading whitespace, name, then nothing / '=' quoted value through its first closing quote / '=' unquoted value without whitespace or '>'), C16_attrs_in_tag (every reducible attribute atom lies inside a tag: preceded by a part that ends in '<', optional whitespace, a tag name, with only complete attributes and '>'-free text in between). The Lean reference segmentation is itself compared, on every run, with an independently written Python reference tokenizer (driver command jsspec) on every string up to length 5/6 over adversarial alphabets plus grammar-directed and marker-bearing streams; the splitter models are tied to the code field by field on the same inputs; atoms are also checked through the brace collapse, through both rewriting strategies and on re-used loader objects.",
+        note=NOTE + "The reference segmentation is a definition (25 lines of Lean, LithiumModel/JsSpec.lean) that a reader has to accept as the meaning of 'inside a properly terminated string'; its agreement with a second, independently written tokenizer is tested, not proved. Marker handling (DDBEGIN/DDEND around the JS region) is C05/C08.",
+        technique="Lean 4 proof (refinement of the splitter state machines to a reference segmentation: simulation of the scanner by a greedy labelled pass, rewind lemma, offset-preserving gap merge; shape and in-tag invariants for attributes) + exhaustive short-string correspondence + independent reference tokenizer",
         ref="§4 C16"),
     "C05": dict(
         text="Theorems C05_load_frame (for every splitter without header/footer: before = lines through the DDBEGIN line, after = lines from the DDEND line), C05_char_byte (char mode moves the last region byte, unchanged, in front of the suffix), C05_content_frame, C05_frame_minimize and C05_frame_pairs (every proposal and the final best of minimize / minimize-around / minimize-balanced keep before and after, for every test, clock and option setting; the pair strategies through the generic closed-predicate invariant of the pass loop), C05_frame_move (minimize-balanced WITH the experimental move, modelled in PairsMove.lean: removals and both kinds of moves keep before and after). Tied to the code by loaders + all 7 strategies (+move) x 5 splitters on marker files with every terminator style; the monitor compares prefix/suffix (and the byte before DDEND in char mode) of every file presented to the test.",
